@@ -396,7 +396,8 @@ def oracles(rec):
             if cur[0] != 'dyn' or cur[1] != info.get('initial'):
                 fail('C10', f'Default::default() yields a machine in {cur[1]}; new() starts in {info.get("initial")}')
             else:
-                for st in leaf_data:
+                # (`new` fills the slot of the initial leaf only: never that of a superstate around it)
+                for st in [sp['state'] for sp in info['storage']]:
                     want = '0' if st == cur[1] else '-'
                     if cur[3].get(st, '-') != want:
                         fail('C10', f'Default::default() differs from new(Default::default()): data of {st} reads '
@@ -683,6 +684,11 @@ def gen_defs(tier, seed):
             full.append(basen)
             full.append({'id': f'full{k}ns', 'feature': False, 'def': [it for it in dn if it[0] != 'async'], 'family': 'full',
                          'crate': len(crates), 'mod': 7300 + k, 'twin_of': basen['id'], 'twin_kind': 'sync'})
+    # the same definitions started in a data leaf nested two superstates deep (both carrying data): `new` and `Default`
+    # must agree on every slot, the enclosing superstates' included (seeded change C10-f)
+    for k, (asy, pay) in enumerate(((False, False), (True, True))):
+        d = T.full_def(asy, pay, concrete=bool(k % 2), dynamic=True, initial='HalfOpen')
+        full.append({'id': f'full{k}i', 'feature': False, 'def': d, 'family': 'full', 'crate': len(crates), 'mod': 7400 + k})
     crates.append(full)
     return crates
 
